@@ -321,8 +321,11 @@ def check_C08(ctx, rep):
         return ''
     for (cf, k, other) in table:
         sts = field_stores(fa, cf, 'MachineRuntime')
-        rep.count_floor('C08.R1', 'stores to %s' % cf, len(sts), len(ops))
+        # one store per operation, or one store of a match-valued local (`*value = match op {..}`) judged per path
+        single_match = len(sts) == 1 and sts[0][1][0] == 'phi'
+        rep.count_floor('C08.R1', 'stores to %s' % cf, len(sts), 1 if single_match else len(ops))
         old_self = None
+        ops_seen = set()
         for (pe, v, site) in sts:
             ix, _ = idx_of(pe)
             rep.ob('C08.R1', fn, '%s:index-is-own-machine' % cf, ix == ('param', 2), show(pe))
@@ -335,7 +338,17 @@ def check_C08(ctx, rep):
                     rep.ob('C08.R1', fn, '%s:store-without-operation' % cf, False, 'store of %s not under a single Operation variant: %s' % (shape(v), var))
                     continue
                 op = var[0]
+                ops_seen.add(op)
                 vv = v
+                if single_match and vv[0] == 'phi' and site[1] is not None:
+                    # the value this path assigned to the stored local
+                    st_ = fa.blocks[site[0]]['s'][site[1]]
+                    if st_['rv']['k'] == 'use':
+                        pl_ = st_['rv']['x'].get('m') or st_['rv']['x'].get('c')
+                        if pl_ is not None and not pl_['pr']:
+                            pv = pf.path_def_value(S, pl_['l'])
+                            if pv is not None:
+                                vv = pv
                 if op == 'Increment':
                     ok = is_call(vv, 'saturating_add') and is_field(vv[2][0], cf, 'MachineRuntime')
                     chg = vv[2][1] if ok else None
@@ -347,9 +360,16 @@ def check_C08(ctx, rep):
                     chg = vv
                 else:
                     ok, chg = False, None
-                rep.ob('C08.R1', fn, '%s:%s:value' % (cf, op), ok, 'stores %s' % shape(v))
+                rep.ob('C08.R1', fn, '%s:%s:value' % (cf, op), ok, 'stores %s' % shape(vv))
                 if chg is not None:
-                    alts = chg[1] if chg[0] == 'phi' else (chg,)
+                    def flat(x):
+                        if x[0] == 'phi':
+                            for y in x[1]:
+                                for z in flat(y):
+                                    yield z
+                        else:
+                            yield x
+                    alts = tuple(dict.fromkeys(flat(chg)))
                     okc = len(alts) == 2
                     has_copy = has_sample = False
                     for a in alts:
@@ -366,6 +386,8 @@ def check_C08(ctx, rep):
                         else:
                             okc = False
                     rep.ob('C08.R2', fn, '%s:%s:change-origin' % (cf, op), okc and has_copy and has_sample, 'change = %s' % shape(chg))
+        if single_match:
+            rep.ob('C08.R1', fn, '%s:every-operation-reaches-the-store' % cf, ops_seen == set(ops), 'operations seen at the store: %s' % sorted(ops_seen))
         # every Operation variant has a store
         # must-store: at the zero test (first switch on old != 0), each path that went through the Some(spec) edge has one store
         # unless Increment/Decrement with change == 0
@@ -1495,6 +1517,15 @@ def check_C05(ctx, rep):
         except AnchorMissing as e:
             sub.fail_closed(pid2 + '.anchor', str(e))
         bad = sub.failing()
+        if bad and ctx.n2_ctx() is not None:
+            # each sibling is judged like its own check: on the default normal form, else on N2
+            sub2 = Report(rep.pid, rep.tier)
+            try:
+                chk(ctx.n2_ctx(), sub2)
+            except AnchorMissing as e:
+                sub2.fail_closed(pid2 + '.anchor', str(e))
+            if not sub2.failing():
+                sub, bad = sub2, []
         rep.ob('C05.R4', '<semantics>', 'clauses-of-' + pid2, not bad,
                '%d obligations of %s judged' % (len(sub.obligations), pid2) + ('' if not bad else '; first failing: %s at %s: %s' % (bad[0]['rule'], bad[0]['fn'], bad[0]['construct'])))
         rep.functions |= sub.functions
